@@ -633,7 +633,13 @@ class IMAPUserServer:
         """
         if self.management_task and not self.management_task.done():
             self.management_task.cancel()
-            await self.management_task
+            # The task re-raises its cancellation. That must not end the
+            # shutdown before anything has been shut down.
+            #
+            try:
+                await self.management_task
+            except asyncio.CancelledError:
+                pass
 
         # Close all client connections
         #
